@@ -308,6 +308,57 @@ _branch_kw = [Contract(
 for _c, _n in zip(_branch_kw, (2, 4, 6)):
     _c.shape = {'CH': _n}
 
+# ------------------------------------------------------------------ private (name-mangled) class attributes
+def _chain(k):
+    e = 'self._origin_scope'
+    for _ in range(k):
+        e = 'get_cached_parent_scope(self._parso_cache_node, the(%s))' % e
+    return e
+
+
+def _replay_private(inp):
+    """a private attribute `self.__token` of a class in one module and an un-mangled `obj.__token` outside any class in
+    ANOTHER module, on a line that lies inside the class\'s line range in its own file"""
+    from pyvc.replay import run_real
+    import os
+    import tempfile
+    import shutil
+    import jedi
+    d = tempfile.mkdtemp(prefix='c03priv_', dir='/var/tmp')
+    try:
+        with open(os.path.join(d, 'vault.py'), 'w') as f:
+            f.write('class Box:\n    def __init__(self):\n        self.__token = 1\n\n    def get(self):\n'
+                    '        return self.__token\n\n\n')
+        main = 'from vault import Box\nb = Box()\n%sb.__token\n' % ('\n' * inp['pad'])
+        line = 3 + inp['pad']
+        proj = jedi.Project(d)
+
+        def run():
+            outside = jedi.Script(main, path=os.path.join(d, 'main.py'), project=proj).goto(line, 4)
+            inside = jedi.Script(path=os.path.join(d, 'vault.py'), project=proj).goto(6, 22)
+            return {'outside': [(n.module_name, n.line) for n in outside], 'inside': [(n.module_name, n.line) for n in inside]}
+        out = run_real(run)
+        return {}, out
+    finally:
+        shutil.rmtree(d, ignore_errors=True)
+
+
+_PRIVATE = [Contract(
+    id='C03.ClassFilter._equals_origin_scope[%d]' % d, prop='C03',
+    clause='a name-mangled private attribute (__x) of a class is only visible to code that sits lexically INSIDE that '
+           'class: the enclosing scopes of the accessing name, walked outward in ITS tree, contain the class node '
+           '(%d enclosing scopes)' % d,
+    file='jedi/inference/value/klass.py', qualname='ClassFilter._equals_origin_scope',
+    params={'self': Obj('CFilter')}, families=['CFilter', 'PNode'], ret=BOOL, tier='SB',
+    bounds={'enclosing scopes of the accessing name': d}, unroll={0: d + 1},
+    requires=(['self._origin_scope is None'] if d == 0 else
+              ['%s is not None' % _chain(k) for k in range(d)] + ['%s is None' % _chain(d)]),
+    ensures=['result == (%s)' % (' or '.join('(the(%s) == self._parser_scope or the(%s) == self.parent_context)'
+                                              % (_chain(k), _chain(k)) for k in range(d)) or 'False')],
+    witness={}, replay=_replay_private, concrete_only=True, witness_library=[{'pad': 0}, {'pad': 1}, {'pad': 6}],
+    concrete_ensures=['result["outside"] == []', 'result["inside"] == [("vault", 3)]'],
+) for d in range(0, 4)]
+
 _ANC = 'name_or_none.search_ancestor("funcdef", "classdef", "lambdef")'
 _header_rule = Contract(
     id='C03._get_global_filters_for_name', prop='C03',
@@ -334,6 +385,8 @@ _header_rule = Contract(
 )
 
 FAMILIES = [
+    Family('CFilter', attrs={'_origin_scope': Opt(_PN), '_parser_scope': _PN, 'parent_context': _PN,
+                             '_parso_cache_node': ANY}),
     Family('CtxBig', methods={'get_root_context': FnSpec('Context.get_root_context', ret=Obj('RootBig'), pure=True)}),
     Family('RootBig', attrs={'string_names': Opt(Seq(STR))}),
     Family('Filter', attrs={'_until_position': Opt(POS), '_parso_cache_node': ANY, '_parser_scope': _PN,
@@ -356,7 +409,7 @@ FAMILIES = [
     Family('FilterObj'),
 ]
 
-CONTRACTS = [_is_scope] + PARENT_SCOPE + [_abs_filter, _global_filter, _reachable, _check_flows] + _get_global_filters + [_big_lib, _header_rule] + _branch_kw
+CONTRACTS = [_is_scope] + PARENT_SCOPE + [_abs_filter, _global_filter, _reachable, _check_flows] + _get_global_filters + [_big_lib, _header_rule] + _branch_kw + _PRIVATE
 
 
 def register(reg):
